@@ -407,21 +407,28 @@ func flows() []flow {
 			}
 		}
 	}
-	// ---- end session
+	// ---- end session: every combination of id_token_hint / client_id / post_logout_redirect_uri / state
 	for _, cn := range []string{"web", "web2"} {
-		for _, v := range []string{"EndHint", "EndClientOnly", "EndBare"} {
+		for v := 0; v < 16; v++ {
+			hint, cid, plr, state := v&8 != 0, v&4 != 0, v&2 != 0, v&1 != 0
 			c := clients[cn]
-			add(flow{coq: emit.Ctor("FEndSession", c.coq, v), name: "end_session", tags: []string{"client=" + cn, "variant=" + v}, redirect: c.postLogout,
+			add(flow{coq: emit.Ctor("FEndSession", c.coq, emit.Ctor("EndReq", b(hint), b(cid), b(plr), b(state))), name: "end_session",
+				tags:     []string{"client=" + cn, "hint=" + b(hint), "client_id=" + b(cid), "post_logout=" + b(plr), "state=" + b(state)},
+				redirect: c.postLogout, light: !state && !(hint && !cid),
 				prep: func(e env) func() *opfix.Resp {
 					t := e.tokensOf(c, full)
-					q := url.Values{"state": {e.in.state}}
-					switch v {
-					case "EndHint":
+					q := url.Values{}
+					if hint {
 						q.Set("id_token_hint", t.id)
-						q.Set("post_logout_redirect_uri", c.postLogout)
-					case "EndClientOnly":
+					}
+					if cid {
 						q.Set("client_id", c.id)
+					}
+					if plr {
 						q.Set("post_logout_redirect_uri", c.postLogout)
+					}
+					if state {
+						q.Set("state", e.in.state)
 					}
 					return func() *opfix.Resp { return e.f.Get(e.r, "/end_session", q) }
 				}})
